@@ -69,7 +69,7 @@ def idv_term(s):
 
 def generate(res):
     x = C.read(os.path.join(C.REPO, "src", "xpath_functions.rs"))
-    sets = {"mathml_leaf_nodes": G.phf_str_set(x, "MATHML_LEAF_NODES")}
+    sets = {"mathml_leaf_nodes": C.translate(res, "c09", "MATHML_LEAF_NODES of xpath_functions.rs", lambda: G.phf_str_set(x, "MATHML_LEAF_NODES"))}
     C.write_if_changed(os.path.join(C.GEN, "ElemSets.v"), G.render(sets))
     ok, log = C.build_harness()
     if not ok:
